@@ -161,7 +161,11 @@ def run(ctx):
     ctx.check(removed == frozenset({T.attr(SELF, "id")}), "FORM", f"{f.qualname} / FORM / minus the cell itself", where,
               "exactly self.id is removed", f"removed elements are {[T.show(x) for x in removed]}, expected exactly self.id")
     st = [e for e in s.stores("neighbors") if e.base == SELF]
-    ctx.check(bool(st) and all(e.value == s.ret() for e in st), "FORM", f"{f.qualname} / FORM / stored == returned", where,
+    def phi_leaves(t):
+        return phi_leaves(t[2]) + phi_leaves(t[3]) if t[0] == "phi" else [t]
+    ret_leaves = phi_leaves(s.ret())
+    # (a store of a conditional value is recorded as one guarded store per branch)
+    ctx.check(bool(st) and all(e.value == s.ret() or e.value in ret_leaves for e in st), "FORM", f"{f.qualname} / FORM / stored == returned", where,
               "self.neighbors holds the returned set", "self.neighbors does not hold the returned neighbour set")
 
 
